@@ -416,8 +416,12 @@ static RunResult dkg_execute_inner(const Plan &plan, const std::vector<uint64_t>
 		if (r < 14 && !u.ints.empty())
 		{
 			Unit v = u; size_t k = (size_t)(h >> 8) % v.ints.size();
-			Z x; mpz_set_str(x, v.ints[k].c_str(), 16); mpz_add_ui(x, x, 1); v.ints[k] = zs(x);
-			W.res.cnt["fault.byz_link_mutate"]++; out.push_back(v); return;
+			// +1, or one of the special values 0 / 1 / q-1 (in-band markers and boundary cases of the receivers)
+			Z x; mpz_set_str(x, v.ints[k].c_str(), 16);
+			unsigned sv = (unsigned)((h >> 24) % 8);
+			if (sv == 0) mpz_set_ui(x, 0); else if (sv == 1) mpz_set_ui(x, 1); else if (sv == 2) mpz_sub_ui(x, W.G->q, 1); else mpz_add_ui(x, x, 1);
+			v.ints[k] = zs(x);
+			W.res.cnt[sv <= 2 ? "fault.byz_link_special_value" : "fault.byz_link_mutate"]++; out.push_back(v); return;
 		}
 		out.push_back(u);
 	};
